@@ -53,6 +53,49 @@ const (
 
 var scopeSets = []string{"openid profile", "profile offline_access"}
 
+// devCfg is the time configuration of the device grant (op.DeviceAuthorizationConfig.PollInterval /
+// .Lifetime). The provider's answers to a poll must not depend on it: whatever interval is
+// configured, slow_down is owed only when the storage really ran into the request's deadline.
+type devCfg struct{ Poll, Life time.Duration }
+
+var defaultCfg = devCfg{Poll: 5 * time.Second, Life: lifetime}
+
+func (k devCfg) String() string { return k.Poll.String() + "/" + k.Life.String() }
+
+func parseCfg(s string) devCfg {
+	if s == "" {
+		return defaultCfg
+	}
+	a, b, _ := strings.Cut(s, "/")
+	var k devCfg
+	k.Poll, _ = time.ParseDuration(a)
+	k.Life, _ = time.ParseDuration(b)
+	return k
+}
+
+// cfgCorners: the degenerate corners of the device configuration, as "<poll interval>/<lifetime>".
+// Poll interval: the default, one that leaves a positive margin below the handlers' 4 s budget, exactly
+// one second, below one second (the response field is in whole seconds) and unset. Lifetime: the
+// usual minutes and the smallest value expires_in can express.
+func cfgCorners() []string {
+	var out []string
+	for _, life := range []time.Duration{lifetime, time.Second} {
+		for _, poll := range []time.Duration{5 * time.Second, 2 * time.Second, time.Second, 500 * time.Millisecond, 0} {
+			out = append(out, devCfg{poll, life}.String())
+		}
+	}
+	return out
+}
+
+func cfgRig(k devCfg) *rig.Rig {
+	opc := rig.DefaultOPConfig()
+	opc.DeviceAuthorization.Lifetime = k.Life
+	opc.DeviceAuthorization.PollInterval = k.Poll
+	// a user-code space large enough that two flows never collide by chance
+	opc.DeviceAuthorization.UserCode = op.UserCodeConfig{CharSet: op.CharSetBase20, CharAmount: 12, DashInterval: 4}
+	return rig.MustNew(rig.Opts{OP: opc, Cfg: devConfig()})
+}
+
 var errInjected = errors.New("injected storage fault")
 
 // flow is what the actors and the reference automaton know about one device flow.
@@ -67,6 +110,7 @@ type flow struct {
 }
 
 type S struct {
+	Cfg    string // device configuration "<poll>/<lifetime>" ("" = the default 5s/5m0s; in a configuration part: not chosen yet)
 	St     *refstore.State
 	Off    time.Duration // fake clock (offset from engine.Epoch)
 	Flows  []flow
@@ -75,7 +119,7 @@ type S struct {
 }
 
 func (s S) clone() S {
-	return S{St: s.St.Clone(), Off: s.Off, Flows: slices.Clone(s.Flows), Slow: s.Slow, Faults: s.Faults}
+	return S{Cfg: s.Cfg, St: s.St.Clone(), Off: s.Off, Flows: slices.Clone(s.Flows), Slow: s.Slow, Faults: s.Faults}
 }
 
 func remClass(exp, now time.Duration) string {
@@ -95,7 +139,7 @@ func remClass(exp, now time.Duration) string {
 // read them (they are judged inside the transition that creates them).
 func canon(s S) string {
 	var b strings.Builder
-	fmt.Fprintf(&b, "n=%d/%d/%d slow=%d faults=%d;", len(s.Flows), len(s.St.Devices), len(s.St.UserCodes), s.Slow, s.Faults)
+	fmt.Fprintf(&b, "cfg=%s n=%d/%d/%d slow=%d faults=%d;", s.Cfg, len(s.Flows), len(s.St.Devices), len(s.St.UserCodes), s.Slow, s.Faults)
 	for i, f := range s.Flows {
 		fmt.Fprintf(&b, "[%d %s|%s|by=%s|den=%v|flt=%v|rem=%s", i, f.Client, f.Scopes, f.By, f.Denied, f.Faulted, remClass(f.ExpOff, s.Off))
 		if d, ok := s.St.Devices[f.DC]; ok {
@@ -121,6 +165,8 @@ type part struct {
 	maxFaults  int                 // injected storage faults per history
 	faultKinds []string            // "err" (opaque storage error) | "deadline" (context.DeadlineExceeded)
 	journals   map[string][]string // storage calls of an approved poll, per "client|scopes" (fault positions)
+	cfgs       []string            // configuration part: the first operation of every history chooses one of these device configurations
+	oneScope   bool                // configuration part: flows are started with the first scope set only
 }
 
 // refJournals records, per flow kind, the storage calls of an approved poll by the
@@ -157,20 +203,18 @@ func (p *part) refJournals() {
 			}
 		}
 	}
-	p.c.Extra("fault-positions-"+p.rn(), p.journals)
+	key := "fault-positions-" + p.rn()
+	if len(p.cfgs) > 0 {
+		key = "fault-positions-cfg-" + p.rn()
+	}
+	p.c.Extra(key, p.journals)
 }
 
 func (p *part) rn() string { return rig.Routers[p.router] }
 
 func confidential(client string) bool { return client != "pub" && client != "pub2" }
 
-func (p *part) newRig() *rig.Rig {
-	opc := rig.DefaultOPConfig()
-	opc.DeviceAuthorization.Lifetime = lifetime
-	// a user-code space large enough that two flows never collide by chance
-	opc.DeviceAuthorization.UserCode = op.UserCodeConfig{CharSet: op.CharSetBase20, CharAmount: 12, DashInterval: 4}
-	return rig.MustNew(rig.Opts{OP: opc, Cfg: devConfig()})
-}
+func (p *part) newRig() *rig.Rig { return cfgRig(defaultCfg) }
 
 func (p *part) channels() []string {
 	if len(p.chans) == 0 {
@@ -188,10 +232,16 @@ func withChan(label, ch string) string {
 
 func (p *part) ops(s S) []string {
 	var out []string
+	if len(p.cfgs) > 0 && s.Cfg == "" {
+		for _, k := range p.cfgs {
+			out = append(out, "cfg:"+k)
+		}
+		return out
+	}
 	if len(s.Flows) < p.maxFlows {
 		for _, cl := range p.daClients {
 			for i := range scopeSets {
-				if i > 0 && (cl == "norefresh" || cl == "ghost" || cl == "web-nocred" || strings.Contains(cl, "+")) {
+				if i > 0 && (p.oneScope || cl == "norefresh" || cl == "ghost" || cl == "web-nocred" || strings.Contains(cl, "+")) {
 					continue
 				}
 				for _, ch := range p.channels() {
@@ -274,9 +324,18 @@ func (p *part) ops(s S) []string {
 }
 
 func (p *part) newStep(w int) func(S, string) (S, engine.Result) {
-	r := p.newRig()
+	rigs := map[string]*rig.Rig{"": p.newRig()} // one provider per device configuration
 	return func(s S, op string) (S, engine.Result) {
 		ns := s.clone()
+		if k, ok := strings.CutPrefix(op, "cfg:"); ok {
+			ns.Cfg = k
+			return ns, engine.OK("configure", "poll-interval/lifetime="+k)
+		}
+		r, ok := rigs[ns.Cfg]
+		if !ok {
+			r = cfgRig(parseCfg(ns.Cfg))
+			rigs[ns.Cfg] = r
+		}
 		r.Core.Reset(ns.St)
 		var res engine.Result
 		pan := engine.Bubble(p.c.T, ns.Off, func() { res = p.exec(r, &ns, op) })
@@ -495,7 +554,7 @@ func (p *part) exec(r *rig.Rig, s *S, opl string) engine.Result {
 		s.Flows[i].Denied = true
 		return engine.OK("deny", orderClass(s.Flows[i], s.Off, "denied"))
 	case "adv":
-		s.Off += lifetime + time.Second
+		s.Off += parseCfg(s.Cfg).Life + time.Second
 		return engine.OK("advance", "past-lifetime")
 	case "near":
 		min := time.Duration(-1)
@@ -636,15 +695,37 @@ func (p *part) devAuth(r *rig.Rig, s *S, who, scopes, ch string) engine.Result {
 	if d.UserCode != uc || d.St.ClientID != client || stored != scopes {
 		return bad("stored-record", fmt.Sprintf("stored record client=%s scopes=%v user code match=%v; request client=%s scopes=%q", d.St.ClientID, d.St.Scopes, d.UserCode == uc, client, scopes))
 	}
-	exp := engine.Epoch.Add(s.Off + lifetime)
+	cfg := parseCfg(s.Cfg)
+	exp := engine.Epoch.Add(s.Off + cfg.Life)
 	if !d.St.Expires.Equal(exp) {
 		return bad("stored-expiry", fmt.Sprintf("stored expiry %v, want now+lifetime %v", d.St.Expires, exp))
 	}
-	if n, _ := body["expires_in"].(float64); n != float64(lifetime/time.Second) {
-		return bad("expires-in", fmt.Sprintf("expires_in=%v, configured lifetime %v", body["expires_in"], lifetime))
+	if n, _ := body["expires_in"].(float64); n != float64(cfg.Life/time.Second) {
+		return bad("expires-in", fmt.Sprintf("expires_in=%v, configured lifetime %v", body["expires_in"], cfg.Life))
 	}
-	s.Flows = append(s.Flows, flow{Client: client, Scopes: scopes, DC: dc, UC: uc, ExpOff: s.Off + lifetime})
+	if why := intervalOK(body, cfg.Poll); why != "" {
+		return bad("interval", why)
+	}
+	s.Flows = append(s.Flows, flow{Client: client, Scopes: scopes, DC: dc, UC: uc, ExpOff: s.Off + cfg.Life})
 	return engine.OK(rule, o)
+}
+
+// intervalOK: the response's interval (whole seconds; absent = 0) is the configured poll interval. A
+// configured fraction of a second cannot be expressed: rounded down or up, either is accepted.
+func intervalOK(body map[string]any, poll time.Duration) string {
+	n, present := body["interval"].(float64)
+	if _, any := body["interval"]; any && !present {
+		return fmt.Sprintf("interval=%v is not a number", body["interval"])
+	}
+	lo := float64(poll / time.Second)
+	hi := lo
+	if poll%time.Second != 0 {
+		hi++
+	}
+	if n < lo || n > hi {
+		return fmt.Sprintf("interval=%v, configured poll interval %v", body["interval"], poll)
+	}
+	return ""
 }
 
 // poll sends one device_code token request. code: flow index | "g" garbage |
@@ -858,6 +939,30 @@ func TestCheck(t *testing.T) {
 			Canon:     canon,
 			MaxDepth:  engine.Pick(c, 12, 14),
 			MaxStates: 600000,
+		})
+	}
+	// The device configuration's degenerate corners INSIDE the histories: the first operation of every
+	// history chooses poll interval x lifetime, then the core alphabet runs on a provider configured that
+	// way (start by a confidential / a public / an unregistered client, approve, deny, advance past the
+	// lifetime, poll by the initiator and by foreign callers, poll under an injected DeadlineExceeded, poll
+	// while the storage call really blocks for 5 s of fake time). The reference automaton is the same for
+	// every configuration: the storage of an ordinary poll answers at once (zero fake time), so slow_down
+	// is never owed there, whatever interval is configured.
+	for router := 0; router < 2; router++ {
+		if !want("hist-cfg-" + rig.Routers[router]) {
+			continue
+		}
+		p := &part{c: c, router: router, cfgs: cfgCorners(), oneScope: true,
+			daClients: engine.Pick(c, []string{"web", "pub", "norefresh"}, []string{"web", "pub", "jwt", "webjwt", "norefresh"}), maxFlows: 2,
+			users: engine.Pick(c, []string{"u1"}, []string{"u1", "u2"}),
+			near:  c.Thorough(), slow: true, extraWho: c.Thorough(),
+			maxFaults: engine.Pick(c, 0, 1), faultKinds: []string{"err", "deadline"}}
+		if p.maxFaults > 0 {
+			p.refJournals()
+		}
+		engine.RunE2(c, engine.E2[S]{
+			Part: "hist-cfg-" + rig.Routers[router], Init: S{St: refstore.NewState()},
+			Ops: p.ops, NewStep: p.newStep, Canon: canon, MaxDepth: engine.Pick(c, 13, 15), MaxStates: 600000,
 		})
 	}
 	if c.Thorough() {
